@@ -297,15 +297,41 @@ func (w *World) advanceTo(at time.Duration) {
 		w.probe("sim-time-exhausted")
 		return
 	}
-	if at > w.now {
-		time.Sleep(at - w.now)
-		// library goroutines woken by the clock (retry sleeps, real timers) must come to rest before the harness goes on
+	// Time never jumps over something the library itself scheduled on the clock (a retry pause, its real election
+	// timer): the clock stops there first, the woken goroutines come to rest, then it moves on.
+	for i := 0; i < 100000; i++ {
+		next := at
+		var wake, real *Node
+		for _, n := range w.nodes {
+			if !n.alive {
+				continue
+			}
+			if n.wakeAt > 0 && n.wakeAt < next {
+				next, wake, real = n.wakeAt, n, nil
+			}
+			if n.realTrig != nil && n.realTrig.armed && !n.realTrig.seen && n.realTrig.expiry < next {
+				next, wake, real = n.realTrig.expiry, nil, n
+			}
+		}
+		if real != nil {
+			w.onRealTimerDue(real)
+			real.realTrig.seen = true
+		}
+		if wake != nil {
+			wake.wakeAt = 0
+		}
+		if next > w.now {
+			time.Sleep(next - w.now)
+		}
 		w.quiesce()
 		w.syncClock()
-		for _, n := range w.nodes {
-			if n.wakeAt > 0 && n.wakeAt <= w.now {
-				n.wakeAt = 0
-			}
+		if wake == nil && real == nil {
+			break
+		}
+	}
+	for _, n := range w.nodes {
+		if n.wakeAt > 0 && n.wakeAt <= w.now {
+			n.wakeAt = 0
 		}
 	}
 }
